@@ -117,6 +117,63 @@ def killed_before_declaring(viol):
         pr.destroy()
 
 
+def ifcreate_unusual_names(viol):
+    """The two sides of redo-ifcreate — the declaration (refused when the path exists) and the later check ("has it come
+    into existence?") — must mean the same by "exists", also for names that are not plain: a symbolic link whose
+    destination is not there yet (an optional `local.conf -> site/local.conf`), a path below something that is not a
+    directory, a path in a directory that does not exist yet.  For each: the declaration is accepted, two further
+    checks rebuild nothing, intermediate steps that do not bring the path into existence rebuild nothing, and the step
+    that does rebuilds the target once."""
+    import os as _os
+    script = 'echo ran >>"$2.runs"\nif [ -e "%s" ]; then redo-ifchange "%s"; else redo-ifcreate "%s"; fi\necho "$2"\n'
+    cases = [
+        ("link", "opt.conf", "a symbolic link whose destination does not exist yet",
+         lambda pr: _os.symlink("site/opt.conf", pr.path("opt.conf")),
+         [("the directory of the destination is made (the destination still is not there)", lambda pr: _os.makedirs(pr.path("site")), False),
+          ("the destination is created", lambda pr: pr.write("site/opt.conf", "x"), True)]),
+        ("below-file", "plain/x", "a path below a regular file",
+         lambda pr: pr.write("plain", "i am a file"),
+         [("the file is rewritten", lambda pr: pr.write("plain", "still a file"), False),
+          ("the file is replaced by a directory holding the path", lambda pr: (pr.rm("plain"), pr.write("plain/x", "x")), True)]),
+        ("missing-dir", "later/x", "a path in a directory that does not exist yet",
+         lambda pr: None,
+         [("the directory is made (empty)", lambda pr: _os.makedirs(pr.path("later")), False),
+          ("a different file is created in it", lambda pr: pr.write("later/y", "y"), False),
+          ("the path is created", lambda pr: pr.write("later/x", "x"), True)]),
+    ]
+    for t, watched, what, setup, steps in cases:
+        pr = Project()
+        try:
+            setup(pr)
+            pr.write(t + ".do", script % (watched, watched, watched))
+            problems = []
+            rc, o, e = pr.run(["redo-ifchange", t])
+            if rc != 0:
+                problems.append("declaring redo-ifcreate for %s was refused (exit %d: %s)" % (what, rc, (e.strip().splitlines() or [""])[-1][:120]))
+            runs = lambda: len((pr.read(t + ".runs") or b"").split())
+            n = runs()
+            for k in range(2):
+                rc, o, e = pr.run(["redo-ifchange", t])
+                if not problems and (rc != 0 or runs() != n):
+                    problems.append("check %d after the declaration: exit %d, the script has run %d time(s) (expected %d: %s has not come into existence)" % (k + 1, rc, runs(), n, what))
+            for desc, act, appears in steps:
+                act(pr)
+                rc, o, e = pr.run(["redo-ifchange", t])
+                want = n + 1 if appears else n
+                if not problems and (rc != 0 or runs() != want):
+                    problems.append("after %s: exit %d, the script has run %d time(s), expected %d" % (desc, rc, runs(), want))
+                n = want
+            rc, o, e = pr.run(["redo-ifchange", t])
+            if not problems and (rc != 0 or runs() != n):
+                problems.append("a further check with nothing changed: exit %d, %d runs, expected %d" % (rc, runs(), n))
+            if problems:
+                p = write_replay("C14", "ifcreate-" + t, dict(kind="impl-monitor", watched=watched, what=what, problems=problems, stderr=e[-600:], script=script % (watched, watched, watched)))
+                viol.append(Violation("C14", p, "redo-ifcreate of %s (%s): %s" % (watched, what, "; ".join(problems[:2]))))
+                return
+        finally:
+            pr.destroy()
+
+
 def run(ctx):
     # a rebuild triggered by a watched path that appeared, or of a redo-always target, may be killed part-way: the old
     # rows (flagged for deletion until the script re-declares them) must stay in force, or the target is never rebuilt again
@@ -133,4 +190,7 @@ def run(ctx):
     if not viol and not ctx.get("replay"):
         always_beside_other_run(viol)
         cov["directed_scenarios"] = 2
+    if not viol and not ctx.get("replay"):
+        ifcreate_unusual_names(viol)
+        cov["directed_scenarios"] = 3
     return cov
